@@ -305,6 +305,21 @@ func c07ReadErrors(w *mon.W, idx int) {
 			w.Distinct(gen.Hash64(2, uint64(idx), uint64(k)))
 		}
 	}
+	// k = len(frame): the reader hands over the LAST bytes of the frame together with an error (n > 0, err != nil in one
+	// Read - a quota or deadline reader). The bytes come first: the complete frame was delivered, so the call succeeds
+	// with n = len(frame) (io.ReadFull and io.CopyN both drop an error that arrives with the last wanted byte).
+	for _, mode := range []int{chWhole, chRandom} {
+		cr := newChunkReader(frame, mode, w.Rng)
+		cr.errAfter, cr.err, cr.errWith = len(frame), errInjectedRead, true
+		w.Op, w.A, w.B = "Unmarshal(error with the last bytes of the frame)", int64(len(frame)), 1
+		o := c07Unmarshal(cr, c.empty())
+		ev++
+		if o.pan != "" || o.err != nil || int(o.n) != len(frame) || o.cons != len(frame) {
+			w.Fail("readerr/complete-frame-delivered-with-error-on-last-read", mon.D{"kind": pbKindNames[c.Kind], "frame_len": len(frame), "returned_n": o.n, "err": errStr(o.err), "panic": o.pan, "reader_delivered": o.cons})
+			return
+		}
+		w.Bucket("readerr/complete-frame-with-error-on-last-read")
+	}
 	w.Eval(ev)
 	w.Extra("read_error_points_enumerated", int64(len(frame)))
 	w.Sample(func() interface{} {
@@ -356,6 +371,35 @@ func c07WriteFaults(w *mon.W, idx int) {
 			if k == len(frame) {
 				w.Bucket("writefault/error-on-the-write-that-completes-the-frame")
 			}
+		}
+		if k%7 == 3 || k == 0 || k == 32 || k == len(frame)-1 {
+			// the writer PANICS at byte k (its own bug, a closed pipe wrapper, ...) and the caller recovers: nothing of the
+			// aborted call may show in the next one (round 14 seeded a pooled header buffer that is only cleaned after the
+			// write returned)
+			pw := &panicWriter{at: k}
+			func() {
+				defer func() { recover() }()
+				w.Op = "Marshal(writer panics)"
+				pbcmpl.Marshal(pw, msg)
+			}()
+			other := c07Frame(w.Cfg, w.Rng, idx+1+k)
+			for _, q := range []int{1, len(other.frame())} {
+				qw := &quotaWriter{quota: q, eager: q == len(other.frame()), err: errInjectedWrite}
+				if q == len(other.frame()) {
+					qw = &quotaWriter{quota: -1}
+				}
+				w.Op = "Marshal(after a recovered writer panic)"
+				n, err := pbcmpl.Marshal(qw, other.msg())
+				ev++
+				of := other.frame()
+				want := of[:min(q, len(of))]
+				if !bytes.Equal(qw.buf.Bytes(), want) || int(n) != len(want) || (q == len(of)) != (err == nil) {
+					w.Fail("writefault/after-recovered-writer-panic", mon.D{"panic_at_byte": k, "next_frame_len": len(of), "writer_quota": q, "returned_n": n, "err": errStr(err), "bytes_in_writer": qw.buf.Len(),
+						"prefix_ok": bytes.Equal(qw.buf.Bytes(), of[:min(len(of), qw.buf.Len())])})
+					return
+				}
+			}
+			w.Bucket("writefault/writer-panic-then-next-marshal")
 		}
 		switch {
 		case k < 32:
